@@ -5,6 +5,8 @@ import PsutilModel.Model.C04Fine
 import PsutilModel.Spec.C04
 import PsutilModel.Model.C04Status
 import PsutilModel.Spec.C04Status
+import PsutilModel.Model.C04ScanGen
+import PsutilModel.Spec.C04Scan
 open Lean Psutil Psutil.Proto Psutil.C04
 
 structure DSt where
@@ -148,6 +150,51 @@ def handle (d : DSt) (j : Json) : R (DSt × Json) := do
     let sp : Json := if t.wfb then jScan (.eq (t.tgid == n)) else Json.null
     return (d, jObj [("model", jScan (scanStatus t.render n)), ("spec", sp),
                      ("render", jBytes t.render)])
+  -- one visit of process_iter(attrs=names) at the granularity of as_dict's OS accesses: the state of the process
+  -- at each access instant (the last one persists), what a zombie's files give, the errno of a gone process's
+  -- files, the files denied while alive; the model runs with the facts of THIS tree (scanProbe, scanSrcs)
+  if op == "scan" then
+    let parseLife : Json → R Life := fun x => do
+      let t ← asStr x
+      if t == "alive" then pure Life.alive else if t == "zombie" then pure Life.zombie
+      else if t == "gone" then pure Life.gone else .error s!"unknown life state {t}"
+    let parseRd : String → R Rd := fun t =>
+      if t == "ok" then pure Rd.ok else if t == "empty" then pure Rd.empty else if t == "eacces" then pure Rd.eacces
+      else if t == "esrch" then pure Rd.esrch else if t == "enoent" then pure Rd.enoent else .error s!"unknown access result {t}"
+    let rdName : Rd → String := fun
+      | .ok => "ok" | .empty => "empty" | .eacces => "eacces" | .esrch => "esrch" | .enoent => "enoent"
+    let names ← listF asStr j "names"
+    let life ← listF parseLife j "life"
+    let zpairs ← listF (fun x => do
+      let f ← strF x "f"
+      let r ← strF x "r" >>= parseRd
+      pure (f, r)) j "zres"
+    let gesrch ← listF asBool j "gesrch"
+    let deny ← listF asStr j "deny"
+    let cold ← boolF j "cold"
+    let aempty := ((optF (asList asStr) j "aempty").toOption.join).getD []
+    let lastLife := life.getLast?.getD Life.alive
+    let w : ScanWorld :=
+      { life := fun i => life.getD i lastLife
+        zres := fun f => ((zpairs.find? fun e => e.1 == f).map (·.2)).getD Rd.ok
+        gesrch := fun i => gesrch.getD i false
+        deny := fun f => deny.contains f
+        aempty := fun f => aempty.contains f }
+    let held := ((optF (asList asStr) j "held").toOption.join).getD []
+    let (st, out) := if cold then visitScan scanProbe scanSrcs w cold names
+                     else visitScanHeld scanProbe scanSrcs w held names
+    let jOutV : VisitOut → Json := fun
+      | .yielded items => jObj [("kind", "yielded"),
+          ("items", jList (fun (x : String × Bool) => Json.arr #[Json.str x.1, Json.bool x.2]) items)]
+      | .skipped => jObj [("kind", "skipped")]
+      | .exc c => jObj [("kind", "exc"), ("exc", Json.str c)]
+    let jAcc : Acc → Json := fun
+      | .rd f r => Json.arr #[Json.str f, Json.str (rdName r)]
+      | .ex b => Json.arr #[Json.str "exists", Json.bool b]
+    let unknown := names.filter fun nm => decide (srcOf scanSrcs nm = Src.other)
+    return (d, jObj [("model", jObj [("out", jOutV out), ("log", jList jAcc st.log), ("used", jNat st.i),
+                                      ("unmodelled", jList Json.str unknown)]),
+                     ("spec", jObj [("must_yield", Json.bool (Spec.mustYield life))])])
   if op == "pid_exists_arg" then
     let t ← strF j "t"
     let a : PyNum ← (
